@@ -20,6 +20,7 @@ type Options struct {
 	Defaults   bool
 	Maps       bool // additionalProperties
 	AnyType    bool // empty schema {}
+	Docs       bool // descriptions (multi-paragraph, shared between items) and deprecated flags
 	Names      func(t *rapid.T, label string) string
 }
 
@@ -307,6 +308,9 @@ func (g *genCtx) gen(t *rapid.T, depth int) *Schema {
 	if g.opt.Nullable && s.Type != "" && s.Enum == nil && rapid.IntRange(0, 5).Draw(t, "nullable") == 0 {
 		s.Nullable = true
 	}
+	if g.opt.Docs && s.Ref == "" {
+		s.Description, s.Deprecated = DrawDocs(t)
+	}
 	return s
 }
 
@@ -386,4 +390,23 @@ func FormatMatrix() Components {
 		arr.Props = append(arr.Props, Prop{Name: "m_" + f, Schema: &Schema{Type: "object", AddProps: &Schema{Type: "string", Format: f}}})
 	}
 	return Components{"F0": obj, "F1": arr}
+}
+
+// DocTexts are descriptions shared between items of a document: several paragraphs, blank
+// lines, long lines that get wrapped, comment-hostile text.
+var DocTexts = []string{
+	"Short.",
+	"First paragraph of the description.\n\nSecond paragraph, a bit longer so that the comment wrapper has to break it into more than one line of output text.\n\nThird.",
+	"Line one\nLine two\nLine three\nLine four\nLine five",
+	"A description with */ and // and `backticks` and \"quotes\".\n\nAnd a second paragraph.",
+	"Deprecated: use something else.\n\nDetails follow in this paragraph.\n\n- item\n- item",
+}
+
+// DrawDocs draws a description (empty most of the time) and a deprecated flag.
+func DrawDocs(t *rapid.T) (string, bool) {
+	d := ""
+	if rapid.IntRange(0, 2).Draw(t, "hasdoc") == 0 {
+		d = rapid.SampledFrom(DocTexts).Draw(t, "doc")
+	}
+	return d, rapid.IntRange(0, 3).Draw(t, "deprecated") == 0
 }
